@@ -65,4 +65,17 @@ macro_rules
        try (apply getElem_congr_fun
             bv_bits 4 <;> (simp; try ac_rfl)))))
 
+/-- S-box layer applied to an image that itself contains per-half S-box results (32-bit word configurations) -/
+syntax "mantis_bits_sbox2" : tactic
+macro_rules
+  | `(tactic| mantis_bits_sbox2) => `(tactic|
+    (bv_bits 64 <;>
+      (simp [gen_unfold, refPre, refFwd, refMid, refBwd, refPost, alphaImg, lane, extractLsb'_extractLsb'_le,
+             mantis_mix_columns, mantis_shift_rows, mantis_shift_rows_inverse, mantis_update_tweak, mantis_update_tweak_inverse,
+             mantis_sbox_64_getElem, mantis_sbox_32_getElem, msbox_64_lane, msbox_32_lane]
+       try (apply getElem_congr_fun
+            bv_bits 4 <;>
+              (simp [lane, extractLsb'_extractLsb'_le, mantis_sbox_64_getElem, mantis_sbox_32_getElem, msbox_64_lane, msbox_32_lane]
+               try ac_rfl)))))
+
 end SkinnyVerif.Lemmas
